@@ -40,6 +40,14 @@ func discoverFormats(c *Check) []format {
 				fresh = false
 			}
 		}
+		if c.Prop != "C20" {
+			if typ != "" {
+				out = append(out, format{f.name, f.pkg, typ})
+			} else {
+				c.undecided("anchor", f.name+" envelope type", "NewEnvelope does not return a base.Envelope wrapping a format envelope", c.P.pos(pg.G.Root.Decl.Pos()))
+			}
+			continue
+		}
 		c.add("O-C20.4", f.name+": NewEnvelope returns an empty wrapper", "NewEnvelope returns a fresh base.Envelope with an empty inner envelope and no Raw (so the object reports that no signature is present)", typ != "" && fresh, c.P.pos(pg.G.Root.Decl.Pos()))
 		if typ != "" {
 			out = append(out, format{f.name, f.pkg, typ})
